@@ -43,7 +43,8 @@ Block(s, ne, acc, dom, f) ==
        \o <<StageOp(s)>>
        \o (IF dom = "mid" THEN <<DomOp>> ELSE <<>>)
        \o <<PostOp(f, s)>>
-       \o (IF acc = "post" THEN <<AccelOp(i, TRUE)>> ELSE <<>>)
+       \o (IF acc = "post" THEN <<AccelOp(i, TRUE)>>
+           ELSE IF acc = "postF" THEN <<AccelOp(i, FALSE)>> ELSE <<>>)
        \o (IF dom = "end" THEN <<DomOp>> ELSE <<>>)
 
 RECURSIVE Blocks(_, _, _, _, _)
@@ -64,7 +65,9 @@ Programs ==
 (***************************************************************************)
 (* Stepper patterns: which of initialize/stageM/py_stageM exist.           *)
 (***************************************************************************)
-MRec(loop, py, mv, pyw) == [loop |-> loop, py |-> py, mv |-> mv, pyw |-> pyw]
+MRecP(loop, py, mv, pyw, pop) ==
+    [loop |-> loop, py |-> py, mv |-> mv, pyw |-> pyw, pop |-> pop]
+MRec(loop, py, mv, pyw) == MRecP(loop, py, mv, pyw, "none")
 Pattern(name, S) ==
     [q \in 1..(S + 1) |->
        LET m == q - 1 IN
@@ -73,15 +76,26 @@ Pattern(name, S) ==
          [] name = "O" -> MRec(m # 1, m = 1,
                                IF m = S /\ S > 1 THEN 1 ELSE 0, FALSE)
          [] name = "W" -> MRec(TRUE, m >= 1, 0, m = 1)
-         [] name = "N" -> MRec(m <= 1, FALSE, 0, FALSE)]
+         [] name = "N" -> MRec(m <= 1, FALSE, 0, FALSE)
+         \* hooks that change the population of their array:
+         \* A: py_initialize and py_stage1 add a particle
+         \* G: py_stage1 turns a real particle into a ghost; stage S moves
+         \* R: the hook of the last stage removes a particle, py_stage1 adds
+         [] name = "A" -> MRecP(TRUE, m <= 1, IF m = S THEN 1 ELSE 0, FALSE,
+                                IF m <= 1 THEN "add" ELSE "none")
+         [] name = "G" -> MRecP(TRUE, m >= 1, IF m = S THEN 1 ELSE 0, FALSE,
+                                IF m = 1 THEN "ghost" ELSE "none")
+         [] name = "R" -> MRecP(TRUE, m >= 1, 0, FALSE,
+                                IF m = S THEN "remove"
+                                ELSE IF m = 1 THEN "add" ELSE "none")]
 
 Names == <<"a", "b", "c">>
 X0(ai, p, ghost) == IF ai = 1 THEN (IF ghost THEN 2 ELSE p - 1)
                     ELSE IF ai = 2 THEN (IF ghost THEN 6 ELSE 2 * p + 1)
                     ELSE (IF ghost THEN 10 ELSE 7 + p)
-Particle(ai, p, ghost) ==
+Particle(ai, p, ghost, uid) ==
     [x |-> X0(ai, p, ghost), s |-> 1 + p + 4 * ai, v |-> 0, au |-> 0,
-     g |-> ghost]
+     g |-> ghost, uid |-> uid]
 
 StepsOf(n) == IF n = 1 THEN << [t |-> 8, dt |-> 4] >>
               ELSE << [t |-> 8, dt |-> 4], [t |-> 12, dt |-> 8] >>
@@ -101,7 +115,7 @@ CasesFor(pats) ==
       init |-> [ai \in 1..Len(pats) |->
                   [p \in 1..(nr[ai] + ng[ai]) |->
                      Particle(ai, IF p <= nr[ai] THEN p ELSE p - nr[ai],
-                              p > nr[ai])]],
+                              p > nr[ai], p - 1)]],
       periodic |-> per,
       dom |-> IF per
               THEN [d \in 1..NDom(prog, ns) |->
@@ -128,6 +142,7 @@ PatsA == {<<"L">>, <<"P">>, <<"O">>, <<"W">>, <<"P", "N">>, <<"L", "P">>,
 PatsB == {<<"P">>, <<"O">>, <<"L", "P">>, <<"P", "N">>}
 PatsC == {<<"L", "P">>}
 PatsD == {<<"L", "P", "L">>, <<"W", "O", "W">>}
+PatsE == {<<"A">>, <<"G">>, <<"R">>, <<"G", "A">>, <<"L", "R">>}
 
 NoStates == pc < 0       \* CONSTRAINT of the run that only prints
 \* (enumerated pattern set by pattern set: TLC need not normalise the union)
@@ -138,7 +153,7 @@ Init == \E pats \in PatSets :
 Spec == Init /\ [][Next]_vars
 
 ASSUME Emit => \A p \in Programs : PrintT(<<"PROG", ToJson(p)>>)
-ASSUME Emit => \A nm \in {"L", "P", "O", "W", "N"} : \A S \in 1..MaxS :
+ASSUME Emit => \A nm \in {"L", "P", "O", "W", "N", "A", "G", "R"} : \A S \in 1..MaxS :
                   PrintT(<<"PAT", ToJson([name |-> nm, S |-> S,
                                           meth |-> Pattern(nm, S)])>>)
 
@@ -152,29 +167,43 @@ LogOK == Done => FailedLog(case, log) = {}
 \* the initial state stay exactly as they were)
 GhostsUntouched ==
     ~ case.periodic =>
-        \A ai \in 1..NArr : \A p \in 1..Len(parts[ai]) :
-            p > case.arrs[ai].nreal =>
-                /\ parts[ai][p].v = 0
-                /\ parts[ai][p].s = case.init[ai][p].s
-                /\ parts[ai][p].x = case.init[ai][p].x
+        \A ai \in 1..NArr : \A q \in 1..Len(case.init[ai]) :
+            case.init[ai][q].g =>
+                \E p \in 1..Len(parts[ai]) :
+                    /\ parts[ai][p].uid = case.init[ai][q].uid
+                    /\ parts[ai][p].g /\ p > NR(ai)
+                    /\ parts[ai][p].v = 0
+                    /\ parts[ai][p].s = case.init[ai][q].s
+                    /\ parts[ai][p].x = case.init[ai][q].x
+
+\* the real particles come first in every array
+RealsFirst ==
+    \A ai \in 1..NArr : \A p \in 1..Len(parts[ai]) :
+        parts[ai][p].g = (p > NR(ai))
 
 \* with a periodic domain: right after update_domain every ghost is a copy
 \* of a real particle
 GhostsAreCopies ==
     (case.periodic /\ Len(log) > 0 /\ log[Len(log)].ev = "domain") =>
         \A ai \in 1..NArr : \A p \in 1..Len(parts[ai]) :
-            p > case.arrs[ai].nreal =>
-                \E q \in 1..case.arrs[ai].nreal :
+            p > NR(ai) =>
+                \E q \in 1..NR(ai) :
                     /\ parts[ai][p].s = parts[ai][q].s
                     /\ parts[ai][p].v = parts[ai][q].v
 
 \* every real particle has been visited once per compiled stage call so far
+\* (hooks that change the population permute indices: then the total)
 VisitsOK ==
-    \A ai \in 1..NArr : \A p \in 1..case.arrs[ai].nreal :
-        parts[ai][p].v =
+    IF HasPop(case)
+    THEN \A ai \in 1..NArr :
             Cardinality({x \in 1..Len(log) :
-                log[x].ev = "visit" /\ log[x].a = case.arrs[ai].name
-                /\ log[x].i = p - 1})
+                log[x].ev = "visit" /\ log[x].a = case.arrs[ai].name})
+            >= Cardinality({p \in 1..Len(parts[ai]) : parts[ai][p].v > 0})
+    ELSE \A ai \in 1..NArr : \A p \in 1..NR(ai) :
+            parts[ai][p].v =
+                Cardinality({x \in 1..Len(log) :
+                    log[x].ev = "visit" /\ log[x].a = case.arrs[ai].name
+                    /\ log[x].i = p - 1})
 
 \* the stage time is the step's t plus the last stage_dt
 TimeOK == Done \/ (t = StageTime(case, (sj - 1) * NOps(case) + pc))
